@@ -199,3 +199,90 @@ def program_features(p):
         if len(r["heads"]) > 1:
             f.add("multi_head")
     return f
+
+
+# ------------------------------------------------------------------ stratified programs (C04)
+
+def gen_agg_item(rng, g, lower):
+    """an aggregate / negation over a relation of a lower level; g: RuleGen (for bound variables)"""
+    name, arity, _ = rng.choice(lower)
+    kind = rng.choice(["count", "count", "sum", "min", "max", "neg", "neg"])
+    if kind == "neg":
+        args = []
+        for _ in range(arity):
+            u = rng.random()
+            if g.bound and u < 0.6:
+                args.append(("v", rng.choice(g.bound)))
+            elif u < 0.75:
+                args.append(("c", rng.choice(DOM)))
+            elif g.bound and u < 0.85:
+                args.append(g.expr(g.bound))
+            else:
+                args.append(("w",))
+        return ("neg", name, args)
+    out = g.fresh()
+    args, bound = [], []
+    agg_col = rng.randrange(arity) if kind != "count" else None
+    for i in range(arity):
+        if i == agg_col:
+            v = g.fresh()
+            bound.append(v)
+            args.append(("b", v))
+            continue
+        u = rng.random()
+        if g.bound and u < 0.5:
+            args.append(("k", ("v", rng.choice(g.bound))))
+        elif u < 0.62:
+            args.append(("k", ("c", rng.choice(DOM))))
+        elif g.bound and u < 0.7:
+            args.append(("k", g.expr(g.bound)))
+        else:
+            args.append(("w",))
+    it = ("agg", out, kind, bound, name, args)
+    if kind == "count":
+        g.count_vars = getattr(g, "count_vars", []) + [out]      # usize: only usable in heads (as i32)
+    else:
+        g.bound.append(out)
+    return it
+
+
+def gen_strat_program(rng, opts=None):
+    """relations on levels; rules of level L aggregate / negate only relations of lower levels"""
+    opts = dict(opts or {})
+    nlev = rng.choice([2, 2, 3])
+    rels, level = [], {}
+    for L in range(nlev):
+        for k in range(rng.choice([1, 2])):
+            r = ("l%d_%d" % (L, k), rng.choice([1, 2, 2]), "rel")
+            rels.append(r)
+            level[r[0]] = L
+    rules = []
+    for L in range(nlev):
+        here = [r for r in rels if level[r[0]] == L]
+        upto = [r for r in rels if level[r[0]] <= L]
+        lower = [r for r in rels if level[r[0]] < L]
+        for _ in range(rng.choice([1, 2, 2, 3])):
+            g = RuleGen(rng, upto, opts)
+            body = []
+            n = rng.choice([1, 2, 2, 3])
+            nagg = 0
+            for i in range(n):
+                if lower and (rng.random() < 0.55 or (i == n - 1 and nagg == 0 and L > 0)):
+                    body.append(gen_agg_item(rng, g, lower))
+                    nagg += 1
+                else:
+                    body.append(g.item())
+            # results of count need a conversion in the head
+            h = rng.choice(here)
+            args = []
+            for _ in range(h[1]):
+                cands = list(g.bound) + getattr(g, "count_vars", [])
+                if cands and rng.random() < 0.85:
+                    x = rng.choice(cands)
+                    is_count = any(it[0] == "agg" and it[1] == x and it[2] == "count" for it in body)
+                    args.append(("f", "asi32", [x]) if is_count else ("v", x))
+                else:
+                    args.append(("c", rng.choice(DOM)))
+            rules.append(dict(heads=[(h[0], args)], body=body))
+    rng.shuffle(rules)
+    return dict(rels=rels, rules=rules, shape="stratified")
